@@ -406,7 +406,7 @@ def _row_recording(self, name):
 trusted.Cursor._row = _row_recording
 
 
-@contract("stepup/core/scheduler.py::Scheduler._get_next_step", props=["C12", "C10", "C03"])
+@contract("stepup/core/scheduler.py::Scheduler._get_next_step", props=["C12", "C10", "C03", "C04"])
 class get_next_step:
     args = dict(self=_scheduler)
     finish = _gns_finish
@@ -448,7 +448,7 @@ def _pop_finish(c, outcome, args, old):
                 metas == ["_update_meta_safe", "_update_meta_after", "_update_meta_ready"], kind="post", detail=str(metas))
 
 
-@contract("stepup/core/scheduler.py::Scheduler.pop_next_job", props=["C12", "C10"])
+@contract("stepup/core/scheduler.py::Scheduler.pop_next_job", props=["C12", "C10", "C04"])
 class pop_next_job:
     args = dict(self=_scheduler)
     may_raise = {common.ConsistencyError: None}
